@@ -262,7 +262,7 @@ class DInterp(Q.Interp):
 
     def __init__(self, ix, module, globals_=None, attr_hook=None, call_hook=None):
         super().__init__(module.tree)
-        self.ix, self.m = ix, module
+        self.ix, self.m, self.home = ix, module, module
         self.globals = globals_ or {}        # (module short name, global name) -> value
         self.attr_hook = attr_hook           # (Obj, attribute) -> value | None
         self.call_hook = call_hook           # (Ref, args, kw) -> value | NotImplemented
@@ -637,6 +637,9 @@ class DInterp(Q.Interp):
                 res = hooked
             elif fv.r[0] == 'class':
                 res = self.construct(fv.r[1], args, kw)
+            elif fv.r[0] == 'func' and fv.r[1] is self.home:
+                # a helper function of the module under analysis (extracted code): evaluated like a method
+                res, _ = self.frame(fv.r[1], None, None, fv.r[2], self.bind(fv.r[2], args, kw, skip_first=False))
             elif fv.r[0] == 'method':
                 owner, fn = fv.r[1], fv.r[2]
                 dec = self._decor(fn)
